@@ -1,6 +1,7 @@
 package checks
 
 import (
+	"strings"
 	"fmt"
 
 	"verifharness/drv"
@@ -177,7 +178,7 @@ func C10(r *drv.Run) {
 	progs := c10Programs(depth)
 	texts := allTexts("ab\n", tlen)
 	r.Exhaustive = true
-	r.Rule = fmt.Sprintf("bounded-progress form of termination: every Run must return within %d VM steps (hook H1), a budget fixed at >= 100x the largest step count the enumerated scope needs on the unchanged tree. Scope enumerated completely: all programs of loop-nesting depth <= %d over nullable building blocks (literal, not-literal, any, line/word/file anchors and their negations, the empty group, not-in, whole word/line; loop forms maybe, at least 0, at most 2, between 0 and 2, at least 1, greedy and fewest; every level-1 program also under skip / skip-take / top / take / last clauses, as find and as replace; loops over loops, over (block loop) and over (loop or block); nullable bodies in subroutines called from loops; named loops with nullable bodies at top level, inside an inline subroutine, inside a stored pattern, inside a subroutine called from a loop, and named loops with a minimum of 50 000 / 100 000 over such bodies; recursion guarded by each kind of consuming element: literal, not-literal, any, class, negated class, not-in, in) x all %d inputs over {a,b,\\n} up to length %d; plus seeded random deeper programs on inputs <= 8 bytes, a third of them drawing on every construct (regex literals, named loops, whole-*, amount clauses, replace) with now and then one name bound both by a capture and by a named loop (there an over-budget run is skipped, not judged; what counts there: crashes, and the step monitor's no-progress verdict - one instruction executed 20 000 times in a row in the same attempt at the same input offset with unchanged backtrack/call/loop depths). Non-trivial = the program contains an optional loop whose body can match the empty string and the run executed a loop instruction; distinct by (program, input).", budget, depth, len(texts), tlen)
+	r.Rule = fmt.Sprintf("bounded-progress form of termination: every Run must return within %d VM steps (hook H1), a budget fixed at >= 100x the largest step count the enumerated scope needs on the unchanged tree. Scope enumerated completely: all programs of loop-nesting depth <= %d over nullable building blocks (literal, not-literal, any, line/word/file anchors and their negations, the empty group, not-in, whole word/line; loop forms maybe, at least 0, at most 2, between 0 and 2, at least 1, greedy and fewest; every level-1 program also under skip / skip-take / top / take / last clauses, as find and as replace; loops over loops, over (block loop) and over (loop or block); nullable bodies in subroutines called from loops; named loops with nullable bodies at top level, inside an inline subroutine, inside a stored pattern, inside a subroutine called from a loop, and named loops with a minimum of 50 000 / 100 000 over such bodies; recursion guarded by each kind of consuming element: literal, not-literal, any, class, negated class, not-in, in) x all %d inputs over {a,b,\\n} up to length %d; plus seeded random deeper programs on inputs <= 8 bytes, a third of them drawing on every construct (regex literals, named loops, whole-*, amount clauses, replace) with now and then one name bound both by a capture and by a named loop (there an over-budget run is skipped, not judged; what counts there: crashes, and the step monitor's no-progress verdict - one instruction executed 20 000 times in a row in the same attempt at the same input offset with unchanged backtrack/call/loop depths). The property's other clause - process code without an unbounded loop - is covered by bounded process loops (counter loops and head/tail loops with break, continue at every position, nested loops, return from inside) in transforms and predicates: every Run must return (there the worker's 30-second CPU guard is the observer; the VM step hook does not see process statements). Non-trivial = the program contains an optional loop whose body can match the empty string and the run executed a loop instruction; distinct by (program, input).", budget, depth, len(texts), tlen)
 	r.Assumptions = []string{
 		"unbounded 'always terminates' is restated as 'returns within the step budget'; max observed steps are in the evidence so the margin is visible",
 		"recursion only behind a consumed byte; no process-code loops",
@@ -225,6 +226,10 @@ func C10(r *drv.Run) {
 			c10Check(r, src, tx, &c, res, false, "random")
 		}}
 	})
+	c10Process(r)
+	if r.NViolations() == 0 && r.Counter("process_loop_runs") == 0 {
+		r.Inconclusive("coverage floor: no process loop was run")
+	}
 	if r.NViolations() == 0 && r.Counter("name_collision_programs_run") == 0 {
 		r.Inconclusive("coverage floor: no program with a capture and a named loop of one name was run")
 	}
@@ -302,4 +307,74 @@ func c10Check(r *drv.Run, src string, texts [][]byte, c *wire.Case, res *wire.Re
 	if sample && len(texts) > 0 {
 		r.Sample(map[string]any{"program": src, "text": string(texts[len(texts)-1])})
 	}
+}
+
+// c10Process: bounded `loop ... end` bodies in transforms and predicates. The loops end by construction (a counter
+// with a limit, or a string that loses its head on every pass); `continue`, `break` and `return` stand at every
+// position relative to the statement that makes the progress.
+func c10Process(r *drv.Run) {
+	bodies := []string{
+		// counter first, continue later
+		"set i to 0 set s to '' loop set i to i + 1 if i > 4 then break end if i == 2 then continue end set s to s + 'x' end return s",
+		// continue before anything else of the pass but after the counter
+		"set i to 0 loop set i to i + 1 if i < 3 then continue end break end return i",
+		// two continues on one pass path
+		"set i to 0 set n to 0 loop set i to i + 1 if i > 6 then break end if i % 2 == 0 then continue end if i == 5 then continue end set n to n + i end return n",
+		// head/tail loop: the string shrinks before the continue
+		"set w to match set n to 0 loop if w == '' then break end set c to head w set w to tail w if c == 'a' then continue end set n to n + 1 end return n",
+		// nested loops, continue in the inner one, break out of both by counters
+		"set i to 0 set t to 0 loop set i to i + 1 if i > 3 then break end set j to 0 loop set j to j + 1 if j > 3 then break end if j == i then continue end set t to t + 1 end end return t",
+		// continue as the LAST statement of the body, and a loop whose body is only a break
+		"set i to 0 loop set i to i + 1 if i >= 3 then break end continue end loop break end return i",
+		// return from inside a loop after a continue has been taken
+		"set i to 0 loop set i to i + 1 if i == 1 then continue end if i == 3 then return 'three' end end return 'never'",
+	}
+	var srcs []string
+	for _, b := range bodies {
+		srcs = append(srcs, "set f to transform "+b+" end\nreplace all at least 1 letter with f")
+		// the same loop in a predicate, its result turned into a verdict
+		pb := strings.Replace(b, "return s", "return s == 'xxx'", 1)
+		pb = strings.Replace(pb, "return i", "return i > 0", 1)
+		pb = strings.Replace(pb, "return n", "return n >= 0", 1)
+		pb = strings.Replace(pb, "return t", "return t > 0", 1)
+		pb = strings.Replace(pb, "return 'three'", "return true", 1)
+		pb = strings.Replace(pb, "return 'never'", "return false", 1)
+		srcs = append(srcs, "set p to pattern at least 1 letter begin "+pb+" end\nfind all p")
+	}
+	texts := [][]byte{[]byte("a"), []byte("banana split"), []byte("aaa b"), []byte(""), []byte("xyz")}
+	r.Exec(len(srcs), drv.ExecOpts{Batch: 1}, func(i int) *drv.Item {
+		src := srcs[i]
+		c := wire.Case{Op: "run", Src: []byte(src), Texts: texts, StepBudget: 1_000_000}
+		return &drv.Item{Case: c, Check: func(res *wire.Result) {
+			r.Eval(1)
+			if res.Died {
+				if res.Guard == "wall" {
+					r.Inconclusive("wall-clock watchdog fired")
+					return
+				}
+				sig := "worker-died:" + classifyFatal(res.Stderr)
+				if res.Guard != "" {
+					sig = "process-loop-does-not-return:guard-" + res.Guard
+				}
+				r.Violate(&drv.Violation{Sig: sig, Panic: firstLines(res.Stderr, 2), Src: src, Case: &c})
+				return
+			}
+			if res.Panic != nil || res.Compile == nil || !res.Compile.OK {
+				msg := ""
+				if res.Compile != nil {
+					msg = res.Compile.Err
+				}
+				r.Inconclusive("process-loop program did not compile or the worker failed: " + oneLineN(msg, 120) + " | " + src)
+				return
+			}
+			for ti := range res.Runs {
+				if res.Runs[ti].Panic != nil {
+					r.Violate(&drv.Violation{Sig: "run-panic:" + res.Runs[ti].Panic.Frame, Panic: res.Runs[ti].Panic.Msg, Frame: res.Runs[ti].Panic.Frame, Src: src, Text: string(texts[ti]), Case: &c})
+					return
+				}
+			}
+			r.Count("process_loop_runs", len(res.Runs))
+			r.Nontrivial("process|" + src)
+		}}
+	})
 }
